@@ -83,7 +83,7 @@ PROPS = {
         "kx": [],
         "technique": "Verus sink precondition on the extracted FetchState::run: repository::update requires |valid delegates| >= identity threshold (minus one if the local node is a delegate) and that no remote whose signed refs were found missing/invalid during this fetch is counted; ghost set threaded through the validation oracles",
         "explanation": "The threshold expression, the valid_delegates bookkeeping in every arm of the loop and the final gate are verified together: update is reachable only if the set counted has at least doc.threshold() - [local is delegate] members, is a subset of the delegates, and contains no remote for which load returned no sigrefs or validate returned failures. A Diverged delegate aborts with Err before any update; a Behind delegate is pruned.",
-        "not_decided": "Only the Success/Failed gate in run is decided; ensure_threshold in SpecialRefs::pre_validate, special_update in refs.rs (which policy a ref gets) is outside the units; repository::direct (what a policy then does) is under contract in unit fetch_ancestry: a rewind is never applied unless the policy is Allow, a fork is rejected (Reject) or aborts (Abort). repository::ancestry is proved (unit fetch_ancestry) to classify exactly by libgit2's ahead/behind counts of the peeled commits (Equal / Ahead = strictly descends / Behind = rewind / Diverged = anything else); libgit2's graph_ahead_behind itself is assumed. 'Leaves local storage unchanged' on Failed is decided as 'repository::update is not called'; Doc::threshold() >= 1 is proved in unit identity.",
+        "not_decided": "Of the chain computing the initially valid delegates the source (local namespaces) is a stand-in, its delegate filter is the repo's closure with a contract in place (a different filter carries no contract and is reported); Only the Success/Failed gate in run is decided; ensure_threshold in SpecialRefs::pre_validate, special_update in refs.rs (which policy a ref gets) is outside the units; repository::direct (what a policy then does) is under contract in unit fetch_ancestry: a rewind is never applied unless the policy is Allow, a fork is rejected (Reject) or aborts (Abort). repository::ancestry is proved (unit fetch_ancestry) to classify exactly by libgit2's ahead/behind counts of the peeled commits (Equal / Ahead = strictly descends / Behind = rewind / Diverged = anything else); libgit2's graph_ahead_behind itself is assumed. 'Leaves local storage unchanged' on Failed is decided as 'repository::update is not called'; Doc::threshold() >= 1 is proved in unit identity.",
     },
     "C20": {
         "vx": ["refs_verify", "refs_text"],
